@@ -84,6 +84,44 @@ theorem sizeSum_take_pos (rs : List (Nat × Nat)) (h : ∀ r ∈ rs, 1 ≤ r.2) 
     | zero => omega
     | succ k => simp only [List.take_succ_cons, sizeSum]; have := h r (List.mem_cons_self ..); omega
 
+/-- cutting after the bytes of the first `k` runes and decoding the prefix gives the first `k` runes -/
+theorem runesOf_take : ∀ (k : Nat) (b : List Nat),
+    runesOf (b.take (sizeSum ((runesOf b).take k))) = (runesOf b).take k := by
+  intro k
+  induction k with
+  | zero => intro b; simp [sizeSum, runesOf_nil]
+  | succ k ih =>
+    intro b
+    by_cases hb : b = []
+    · subst hb; simp [runesOf_nil, sizeSum]
+    · rw [runesOf_cons b hb]
+      simp only [List.take_succ_cons, sizeSum]
+      have hp := decode_size_pos b hb
+      have hle := decode_size_le b
+      -- the prefix `x` and what follows it
+      have hsplit : b = b.take ((decodeRune b).2 + sizeSum ((runesOf (b.drop (decodeRune b).2)).take k)) ++
+          b.drop ((decodeRune b).2 + sizeSum ((runesOf (b.drop (decodeRune b).2)).take k)) := (List.take_append_drop _ _).symm
+      have hxne : b.take ((decodeRune b).2 + sizeSum ((runesOf (b.drop (decodeRune b).2)).take k)) ≠ [] := by
+        intro hnil
+        have := congrArg List.length hnil
+        simp only [List.length_take, List.length_nil] at this
+        have : 0 < b.length := List.length_pos_iff.mpr hb
+        omega
+      have hdec : decodeRune (b.take ((decodeRune b).2 + sizeSum ((runesOf (b.drop (decodeRune b).2)).take k))) = decodeRune b := by
+        have h1 := decode_prefix _ (b.drop ((decodeRune b).2 + sizeSum ((runesOf (b.drop (decodeRune b).2)).take k))) hxne
+          (by rw [← hsplit]; simp only [List.length_take]; omega)
+        rw [h1, ← hsplit]
+      rw [runesOf_cons _ hxne, hdec]
+      congr 1
+      rw [List.drop_take, Nat.add_sub_cancel_left]
+      exact ih (b.drop (decodeRune b).2)
+
+/-- **cutting the bytes at a rune boundary cuts the rune list**: both halves decode to the two parts -/
+theorem cut_bytes (k : Nat) (b : List Nat) :
+    runesOf (b.take (sizeSum ((runesOf b).take k))) = (runesOf b).take k ∧
+    runesOf (b.drop (sizeSum ((runesOf b).take k))) = (runesOf b).drop k :=
+  ⟨runesOf_take k b, runesOf_drop k b⟩
+
 /-! ## re-encoding -/
 
 theorem runesOf_encodeAll : ∀ (vals : List Nat), (∀ v ∈ vals, isScalar v) →
